@@ -248,6 +248,64 @@ func checkC15(w *Worker) {
 			}
 		}
 	})
+	// collapse modes of the balance change only the layout: same leaf paths, same amounts (prefix-free food sets)
+	uni := pathUniverse([]string{"a", "b"}, 3)
+	w.Explore("balance-collapse-modes", ExploreOpts{ShardDepth: 4}, func(x *Exec) {
+		single := x.Choose(2, "config:single-element")
+		var names []string
+		day := absDay{Date: "2021/01/24"}
+		book := absBook{}
+		for i, p := range uni {
+			if x.Choose(2, "input:member") == 1 {
+				names = append(names, p)
+				day.Entries = append(day.Entries, absIng{p, float64(int(1) << uint(i))})
+			}
+			book = append(book, absRecipe{p, []absIng{{"X", c03Coef[i%len(c03Coef)]}}})
+		}
+		if !prefixFree(names) || len(names) == 0 {
+			x.Case("skip-not-prefix-free", false)
+			return
+		}
+		files := map[string]string{"food.yaml": renderBook(book), "log.yaml": renderLog(absLog{day})}
+		leavesOf := func(mode []string) (map[string]string, AppRun, appCase) {
+			args := append([]string{"--no-color", "bal"}, mode...)
+			if single == 1 {
+				args = append(args, "-s", "X")
+			}
+			c := appCase{Args: args, Files: files}
+			r := runApp(c)
+			b, err := parseBalance(r.Stdout)
+			if err != nil || r.Failed {
+				return nil, r, c
+			}
+			leaves := map[string]string{}
+			for i, rw := range b.Rows {
+				if i+1 < len(b.Rows) && b.Rows[i+1].Level > rw.Level {
+					continue
+				}
+				leaves[rw.Path] = rw.Amount
+			}
+			if b.HasTotal {
+				leaves["(grand total)"] = b.Total
+			}
+			return leaves, r, c
+		}
+		base, rb, cb := leavesOf(nil)
+		x.Obs(rb.Key())
+		x.Case(fmt.Sprint(names, single), len(names) >= 2)
+		if base == nil {
+			x.Violate("C15|balance|failed", fmt.Sprintf("`%s`: %s", cb.shell(), rb.String()), nil)
+			return
+		}
+		for _, mode := range [][]string{{"-c"}, {"--collapse-last"}, {"-c", "--collapse-last"}} {
+			got, r, c := leavesOf(mode)
+			x.Obs(r.Key())
+			if fmt.Sprint(got) != fmt.Sprint(base) {
+				x.Violate("C15|balance "+strings.Join(mode, " ")+"|different-records", fmt.Sprintf("foods %v\n`%s` shows the leaves %v\n`%s` shows %v\n%s\nvs\n%s", names, cb.shell(), base, c.shell(), got, rb.Stdout, r.Stdout), map[string]interface{}{"cmd": c.shell()})
+				return
+			}
+		}
+	})
 	// --desc: same rows, non-increasing order
 	w.Explore("descending-order", ExploreOpts{ShardDepth: 3}, func(x *Exec) {
 		which := x.Choose(2, "input:report")
